@@ -943,6 +943,12 @@ fn write_into<'a, T: Elem + 'a>(s: S<'a, T>, buf: BufKind, len: usize, slack: us
         },
         BufKind::Deque => {
             let mut u: VecDeque<MaybeUninit<T>> = <VecDeque<T> as Vec1<T>>::uninit(len);
+            // a reused ring buffer: cycling it moves the head, so the storage is physically wrapped
+            for _ in 0..(if len > 1 { slack % len } else { 0 }) {
+                if let Some(x) = u.pop_front() {
+                    u.push_back(x);
+                }
+            }
             if u.len() != len {
                 return Err(format!("VecDeque::uninit({len}) has length {}", u.len()));
             }
